@@ -11,6 +11,7 @@ import DEvo.Ser.FieldAttrs
 import DEvo.Run.Tx
 import DEvo.Run.History
 import DEvo.Run.Migrations
+import DEvo.Run.Load
 
 /-! Line protocol driver: one JSON object per input line, one JSON object per output line.
 Only model modules (no Mathlib/Batteries) are imported, so this links as a `lean_exe`. -/
@@ -193,6 +194,25 @@ def handle (j : Json) : Except String Json := do
       ("fresh", Json.mkObj (ms.map (fun m => (m.table, tj (Sql.fresh sqliteEnv m))))),
       ("rebuilt", Json.mkObj (ms.map (fun m => (m.table, tj (Sql.rebuilt sqliteEnv m))))),
       ("plain", Json.mkObj (ms.map (fun m => (m.table, toJson (Sql.plainModel m)))))])
+  | "load" =>
+    -- get_app_mutations: what is loaded for a list of labels on one database
+    let db ← j.getObjValAs? String "db"
+    let labelsJ ← (← j.getObjVal? "labels").getArr?
+    let es : List Load.Shipped ← labelsJ.toList.mapM (fun e => do
+      let label ← e.getObjValAs? String "label"
+      let generic : Option String := (e.getObjValAs? String "generic").toOption
+      let perJ ← (← e.getObjVal? "per_db").getArr?
+      let perDb : List (String × String) ← perJ.toList.mapM (fun p => do
+        let q ← p.getArr?
+        match q.toList with
+        | [k, v] => do pure (← k.getStr?, ← v.getStr?)
+        | _ => throw "bad per_db entry")
+      let py ← Codec.strList (← e.getObjVal? "py")
+      pure (⟨label, generic, perDb, py⟩ : Load.Shipped))
+    let out := Load.loadLoop DEvo.Generated.foundResetPerLabel db false es
+    pure (Json.mkObj [("loaded", Json.arr (out.map (fun (l : Load.Loaded) => match l with
+      | .sql label c => Json.arr #[Json.str "sql", Json.str label, Json.str c]
+      | .py t => Json.arr #[Json.str "py", Json.str t])).toArray)])
   | "load_attrs" =>
     -- FieldSignature.deserialize: which stored attributes come back (values are JSON texts, none = null)
     let known ← Codec.strList (← j.getObjVal? "known")
